@@ -230,6 +230,12 @@ func runC07(env *Env, data map[string]any) *Outcome {
 		if implChunks != modelChunks {
 			o.Findings = append(o.Findings, Finding{Kind: "K", What: fmt.Sprintf("K.C07.chunks: splitIntoChunks differs for n=%d", n), Impl: implChunks, Model: modelChunks})
 		}
+		if d := gsDriver(env); d != nil && (!large || n <= 3) {
+			// the translated Go source of splitIntoChunks (Gen/GoPar.lean) evaluated against the running code
+			if gm := d.Ask("gs.chunks", hx(text), fmt.Sprint(n)); gm != implChunks {
+				o.Findings = append(o.Findings, Finding{Kind: "K", What: fmt.Sprintf("K.gosrc.chunks: the Go source of splitIntoChunks as translated into Lean (Gen/GoPar.lean) differs from the running code for n=%d", n), Impl: implChunks, Model: gm})
+			}
+		}
 		if strings.Join(chunks, "") != text {
 			o.Findings = append(o.Findings, Finding{Kind: "D", What: fmt.Sprintf("chunks do not concatenate to the text for n=%d", n), Impl: implChunks})
 		}
